@@ -123,3 +123,27 @@ def squash_person_modifies_line_above_ai_block():
         return s.kinds()
     finally:
         s.destroy()
+
+
+def squash_other_session_replaces_lines_with_shared_prefix():
+    """D50 (fixed): main holds S2's lines 4-5 (`# tokA …`, `tokB …`); on a branch S1 replaces them by three lines, one of which also
+    starts with `# `; `git merge --squash br`; commit => S1's line 5 was committed as S2's (the `# ` left over from S2's old line owned the
+    rewritten line on the favoured side of the merge)."""
+    from .c02 import _mk
+    s = _mk("d50", files=1)
+    try:
+        h = [s.line("human") for _ in range(5)]
+        s.human_write("f.txt", h); s.commit_all("init")
+        a = [s.line("S2", "# w9001_s2 v1"), s.line("S2", "w9002_s2 v2")]
+        s.ai_write("S2", "f.txt", h[:3] + a + h[3:]); s.commit_all("pre")
+        s.g("checkout", "-q", "-b", "br")
+        b = [s.line("S1", "w9003_s1 v3"), s.line("S1", "# w9004_s1 v4"), s.line("S1", "let x = w9005_s1 v5")]
+        s.ai_write("S1", "f.txt", h[:3] + b + h[3:]); s.commit_all("s1-replaces")
+        s.g("checkout", "-q", "main")
+        s.g("merge", "--squash", "br")
+        s.g("commit", "-q", "-m", "squashed")
+        s.check_notes("w")
+        s.check_blame_tip("w", rule="C03")
+        return s.kinds()
+    finally:
+        s.destroy()
